@@ -858,7 +858,9 @@ pub fn generate(p: &GenParams, seed: u64) -> Case {
             let n_auth = r.range(1, 3);
             let mut list = Vec::new();
             for _ in 0..n_auth {
-                let authority = layout.eoa(r.below(n_eoa));
+                // mostly a sender; sometimes an address with no account in the pre-state at all
+                // (an authorisation then installs code on an account that is not "created")
+                let authority = if r.chance(1, 6) { table_addr(layout.idx_absent()) } else { layout.eoa(r.below(n_eoa)) };
                 let target = match r.below(6) {
                     0 => Address::ZERO,
                     1 => layout.eoa(r.below(n_eoa)),
@@ -906,7 +908,10 @@ pub fn generate(p: &GenParams, seed: u64) -> Case {
             }
         }
     }
-    let db = MemDb::new(accounts);
+    let mut db = MemDb::new(accounts);
+    // half of the pre-states answer unknown code hashes with empty code (revm's EmptyDB / CacheDB
+    // behaviour), half with an error
+    db.lenient_code = r.chance(1, 2);
     let disable_nonce_check = r.chance(p.nonce_check_off_pct, 100);
     let hash = case_hash(spec, &db, &block, &txs, disable_nonce_check);
     Case {
